@@ -60,6 +60,46 @@ except ImportError:
 OPENSSH_AUTH_MAGIC = b"openssh-key-v1\x00"
 
 
+def _exact_strings(blob, count):
+    """
+    Split ``blob`` into exactly ``count`` SSH strings.
+
+    Unlike `.Message.get_binary` (which zero-fills a string whose declared
+    length runs past the end of the data, and leaves trailing bytes alone),
+    this returns ``None`` unless ``blob`` consists of exactly ``count``
+    well-formed strings and nothing else.  Used when verifying signatures: a
+    truncated or extended signature blob must not verify.
+    """
+    out = []
+    pos = 0
+    for _ in range(count):
+        if len(blob) - pos < 4:
+            return None
+        size = struct.unpack(">I", blob[pos : pos + 4])[0]
+        pos += 4
+        if len(blob) - pos < size:
+            return None
+        out.append(blob[pos : pos + size])
+        pos += size
+    if pos != len(blob):
+        return None
+    return out
+
+
+def _signature_fields(msg):
+    """
+    Return ``(algorithm name, signature bytes)`` from an SSH signature blob, or
+    ``None`` if ``msg`` is not exactly such a blob (or the name is not UTF-8).
+    """
+    fields = _exact_strings(msg.get_remainder(), 2)
+    if fields is None:
+        return None
+    try:
+        return fields[0].decode("utf-8"), fields[1]
+    except UnicodeDecodeError:
+        return None
+
+
 def _unpad_openssh(data):
     # At the moment, this is only used for unpadding private keys on disk. This
     # really ought to be made constant time (possibly by upstreaming this logic
